@@ -8,5 +8,6 @@ MONITORS = {
     "C04": ["monitors.c04"],
     "C05": ["monitors.c05"],
     "C08": ["monitors.c08"],
+    "C11": ["monitors.c11"],
     "C12": ["monitors.c12"],
 }
